@@ -35,6 +35,7 @@ Section Framed.
     destruct (stream ustep_step s q0 data) as [l hf]. simpl in *. rewrite Hl. reflexivity.
   Qed.
 End Framed.
+Arguments ustep_step {Loc Val} pair f.
 
 (* ---------- the checker on the regenerated facts ---------- *)
 (* per-sample entry points whose frame must hold outright: every recursive filter and architecture,
@@ -68,19 +69,40 @@ Definition looped_filters : list filt :=
 Lemma loops_all : forallb loops_ok looped_filters = true.
 Proof. vm_compute. reflexivity. Qed.
 
-(* non-vacuity of the regenerated facts: the analysis sees the carried state and the constructor data *)
+(* non-vacuity of the regenerated facts: the analysis sees the carried state, the constructor data and the RNG *)
+Definition rd_names (ft : list access) : list string := flat_map (fun a => match a with ARd x => [x] | _ => [] end) ft.
+Definition wr_names (ft : list access) : list string := flat_map (fun a => match a with AWr x => [x] | _ => [] end) ft.
+Definition gl_names (ft : list access) : list string := flat_map (fun a => match a with AGl x => [x] | _ => [] end) ft.
 Example facts_nonvacuous :
-  In (ARd "b") (foot (fmethods F_Mahony) FUEL (Call "updateIMU")) /\
-  In (AWr "b") (foot (fmethods F_Mahony) FUEL (Call "updateIMU")) /\
-  In (AWr "P") (foot (fmethods F_EKF) FUEL (Call "update")) /\
-  In "mag" (fdata F_EKF) /\ In "acc" (fdata F_Mahony) /\ ~ In "Dt" (fdata F_EKF) /\
-  In "k_P" (fcfg F_Mahony) /\ In (AGl "np.random") (foot (fmethods F_OLEQ) FUEL (Call "estimate")).
-Proof.
-  repeat split; try (apply mem_In; vm_compute; reflexivity).
-  intro H. apply mem_In in H. vm_compute in H. discriminate.
-Qed.
+  mem "b" (rd_names (foot (fmethods F_Mahony) FUEL (Call "updateIMU"))) = true /\
+  mem "b" (wr_names (foot (fmethods F_Mahony) FUEL (Call "updateIMU"))) = true /\
+  mem "P" (wr_names (foot (fmethods F_EKF) FUEL (Call "update"))) = true /\
+  mem "m_ref" (rd_names (foot (fmethods F_EKF) FUEL (Call "update"))) = true /\
+  mem "mag" (fdata F_EKF) = true /\ mem "acc" (fdata F_Mahony) = true /\ mem "Dt" (fdata F_EKF) = false /\
+  mem "k_P" (fcfg F_Mahony) = true /\
+  mem "np.random" (gl_names (foot (fmethods F_OLEQ) FUEL (Call "estimate"))) = true /\
+  mem "np.random" (gl_names (foot (fmethods F_ROLEQ) FUEL (Call "_compute_all"))) = true.
+Proof. vm_compute. repeat split. Qed.
+
+(* outside the update calls, _compute_all rebinds nothing but the constructor-data attributes (its private copies of gyr/acc/mag):
+   the configuration and the carried state the loop starts from are the ones __init__ made *)
+Definition compute_all_ok (f : filt) : bool :=
+  let D := fdata f in
+  forallb (fun a => match a with AWr x => mem x D | _ => true end)
+          (foot (filter (fun kv => negb (mem (fst kv) (fupdates f))) (fmethods f)) FUEL (Call "_compute_all")).
+Lemma compute_all_all : forallb compute_all_ok looped_filters = true.
+Proof. vm_compute. reflexivity. Qed.
 
 (* a concrete machine: the batch loop really runs and returns the streamed rows *)
 Example batch_runs :
   fst (batch 0 0 (fun (h q x : nat) => (q + x + h, S h)) 5 100 [7; 1; 2; 3]) = [100; 106; 114; 124].
 Proof. vm_compute. reflexivity. Qed.
+
+(* why the footprints must be disjoint (and why the NumPy seed is an INPUT for OLEQ): a hand-written estimator that draws from a
+   global generator, interpreted over nat.  An instance's answer changes when another instance draws first. *)
+Definition toy_tbl : table := [("estimate", Seq (Glob "np.random") (Rd "a"))].
+Definition toy_step (i : nat) : mstep loc nat nat nat :=
+  mcall Nat.add (fun _ v => v) (fun _ v => S v) (fun _ => true) (fun _ => 0) toy_tbl i FUEL "estimate".
+Example shared_global_breaks_isolation :
+  projL (fst (run2 (toy_step 0) (toy_step 1) (fun _ => 0) [inr 5; inl 7])) <> fst (run (toy_step 0) (fun _ => 0) (projL [inr 5; inl 7])).
+Proof. vm_compute. discriminate. Qed.
